@@ -94,6 +94,30 @@ DmaCopy(c, orc, a, b) ==
     ELSE IF ~(b.wr \subseteq Footprint(dst, w)) THEN "WritesInsideDestination"
     ELSE "ok"
 
+(* ---- C14: dispatch runs each operation on exactly the cores it belongs to ---- *)
+(* xk: the kernels the xDMA streamer extensions declare, as <<kernel name, operand/result types>> *)
+OpClass(e, xk) ==
+  IF e.k # "op" THEN "all"
+  ELSE IF e.n = "memref.copy" THEN "dm"
+  ELSE IF e.n = "linalg.generic" THEN "compute"
+  ELSE IF e.n \in {"dart.operation", "dart.schedule", "dart.access_pattern", "snax_stream.streaming_region"}
+       THEN (IF Len(e.s) >= 4 /\ e.s[2] = "snax_xdma" /\ (\E i \in DOMAIN xk : xk[i][1] = e.s[3] /\ xk[i][2] = e.s[4]) THEN "dm" ELSE "compute")
+  ELSE "all"
+RunsOn(e, core, ncores, xk) ==
+  CASE OpClass(e, xk) = "dm" -> core = ncores - 1
+    [] OpClass(e, xk) = "compute" -> core = 0
+    [] OTHER -> TRUE
+RECURSIVE FilterLog(_, _, _, _, _)
+FilterLog(log, core, ncores, xk, k) ==
+  IF k > Len(log) THEN <<>>
+  ELSE (IF RunsOn(log[k], core, ncores, xk) THEN <<log[k]>> ELSE <<>>) \o FilterLog(log, core, ncores, xk, k + 1)
+Dispatch(c, orc, a, b) ==
+  IF b.fault # "none" THEN "B.fault:" \o b.fault
+  ELSE LET want == FilterLog(a.log, orc.core, c.ncores, c.xk, 1) IN
+       IF FirstBad(want, b.log, EffectEventOK) # 0 THEN "CoreExecutesFilteredProgram"
+       ELSE IF Len(want) # Len(b.log) THEN "CoreExecutesFilteredProgram:count"
+       ELSE "ok"
+
 Judge(contract, c, orc, a, b) ==
   IF a.fault # "none" THEN "skipA:" \o a.fault
   ELSE CASE contract \in {"dedup", "overlap", "trace"} -> AccfgObs(a, b)
@@ -102,5 +126,6 @@ Judge(contract, c, orc, a, b) ==
          [] contract = "packbits" -> PackBits(c, a, b)
          [] contract = "regfile" -> RegFile(c, a, b)
          [] contract = "dma" -> DmaCopy(c, orc, a, b)
+         [] contract = "dispatch" -> Dispatch(c, orc, a, b)
          [] OTHER -> "machinery:unknown-contract"
 =============================================================================
